@@ -796,11 +796,16 @@ def estimate_symbolic_duration(
             # NOTE: Guess tuplets (Naive) it doesn't cover composite durations from tied notes.
             type = SYM_STRAIGHT_DURS[i + 1]["type"]
             normal_notes = 2
-            while (normal_notes * STRAIGHT_DURS[i + 1] / qdur) % 1 > eps:
+            # the quotient is an integer only up to floating point rounding: accept it
+            # when it is within eps of the nearest integer (on either side) and take
+            # that integer (ceil turned 28.000000000000004 into 29)
+            ratio = normal_notes * STRAIGHT_DURS[i + 1] / qdur
+            while abs(ratio - round(ratio)) > eps:
                 normal_notes += 1
+                ratio = normal_notes * STRAIGHT_DURS[i + 1] / qdur
             return {
                 "type": type,
-                "actual_notes": math.ceil(normal_notes * STRAIGHT_DURS[i + 1] / qdur),
+                "actual_notes": int(round(ratio)),
                 "normal_notes": normal_notes,
             }
 
